@@ -160,8 +160,9 @@ MC_CONFIGS = {
     # name: (kwargs, what it explores)
     "order": (dict(**S2, **P2, downs=["k1"], last_ids={}, pub_after={"p2": "p1"}, cancel_subs=["s1", "s2"], faults=0),
               "2 subscribers (topics {a} / {a,b}), one publisher's 2 messages ({a,b} then {b}), 1 Shutdown, any cancellations, no faults"),
-    "resume": (dict(**S2, **P2, downs=[], last_ids={"s1": "p1", "s2": "p2"}, pub_after={}, cancel_subs=["s1"], faults=0),
-               "2 resuming subscribers presenting the IDs of p1 / p2 racing 2 concurrent publishers"),
+    "resume": (dict(**S2, pubs=["p1", "p2", "p3"], pub_topics={"p1": ["a", "b"], "p2": ["b"], "p3": ["a"]}, downs=[],
+                    last_ids={"s1": "p1", "s2": "p2"}, pub_after={"p2": "p1"}, cancel_subs=["s1"], faults=0),
+               "2 resuming subscribers presenting the IDs of p1 / p2 racing 3 publishes (p1 then p2 by one publisher, p3 concurrently)"),
     "faults": (dict(**S2, **P2, downs=[], last_ids={"s2": "p1"}, pub_after={"p2": "p1"}, cancel_subs=["s1", "s2"], faults=1),
                "as 'order' without Shutdown, plus one failing Send / Flush / Put / Replay (error or panic) anywhere, racing cancellations"),
     "shutdown": (dict(subs=["s1", "s2"], sub_topics={"s1": ["a"], "s2": ["a"]}, pubs=["p1"], pub_topics={"p1": ["a"]}, downs=["k1", "k2"],
